@@ -4,6 +4,8 @@ import (
 	"fmt"
 	"image/color"
 	"math"
+	"os"
+	"strconv"
 
 	"github.com/mandykoh/prism/ciexyz"
 
@@ -117,9 +119,35 @@ func C04(tier string) {
 		lattice = append(lattice, uint8(v))
 	}
 	if tier == "thorough" {
-		r.Rule("all 2^24 RGB at alphas 255, 254, 128, 1 and 0 for each of the 16 ordered pairs (complete), all 256 greys x all 256 alphas, plus all 256 alphas x the 4,096-point lattice {0,17,...,255}^3; distinct = (pair, pixel) combinations whose reference value is strictly inside the destination gamut on all channels")
+		r.Rule("all 2^24 RGB at alphas 255, 254, 128, 1 and 0 for each of the 16 ordered pairs (complete), all 256 greys x all 256 alphas, plus all 256 alphas x the 4,096-point lattice {0,17,...,255}^3; each pair also as the first conversions of a fresh process ({255,238,...,0}^3 x alphas {255,128,1,0}, one child process per pair); distinct = (pair, pixel) combinations whose reference value is strictly inside the destination gamut on all channels")
 	} else {
-		r.Rule("all 2^24 RGB at alpha 255 for each of the 16 ordered pairs (complete), all 256 greys x all 256 alphas, alphas {0,1,2,127,128,254,255} x {0,17,...,255}^3; distinct = (pair, pixel) combinations whose reference value is strictly inside the destination gamut on all channels")
+		r.Rule("all 2^24 RGB at alpha 255 for each of the 16 ordered pairs (complete), all 256 greys x all 256 alphas, alphas {0,1,2,127,128,254,255} x {0,17,...,255}^3; each pair also as the first conversions of a fresh process ({255,238,...,0}^3 x alphas {255,128,1,0}, one child process per pair); distinct = (pair, pixel) combinations whose reference value is strictly inside the destination gamut on all channels")
+	}
+
+	// configuration "first conversions of the process": lazily built or shared
+	// tables can depend on which space was used first, so every pair is also the
+	// very first thing a fresh process converts (a child per pair, one goroutine)
+	if s := os.Getenv("VERIF_C04_FIRST"); s != "" {
+		pi, _ := strconv.Atoi(s)
+		p := &pairs[pi]
+		var evals int64
+		for _, a := range []uint8{255, 128, 1, 0} {
+			for rr := 255; rr >= 0; rr -= 17 {
+				for g := 255; g >= 0; g -= 17 {
+					for b := 255; b >= 0; b -= 17 {
+						check(p, color.NRGBA{R: uint8(rr), G: uint8(g), B: uint8(b), A: a})
+						evals++
+					}
+				}
+			}
+		}
+		r.Eval(evals)
+		r.Finish()
+	}
+	if os.Getenv("VERIF_SUBRUN") == "" {
+		for pi := range pairs {
+			subRun(r, "C04", tier, fmt.Sprintf("first-conversion-of-the-process=%s->%s", pairs[pi].src.Name, pairs[pi].dst.Name), fmt.Sprintf("VERIF_C04_FIRST=%d", pi))
+		}
 	}
 
 	for pi := range pairs {
